@@ -309,6 +309,19 @@ static void runConfig(const Value& c, Value& o)
     put(M, "OpEqualsMatrix.MultiMatrix", maxabs(Mat(matrixOfOp(pmm, n) - Qm)), maxabs(Qm), "matrix-apply");
     put(M, "OpEqualsMatrix.MultiMatrix", maxabs(Mat(Qm - Qd)), qcol, "multimatrix-precisionopcs");
   });
+  measure(M, "OpEqualsMatrix.MultiMatrix", [&]() {
+    // two variables with an intrinsic correlation (sills 2, 1/2, 1/2, 1 times the sill): operators of size 2 n
+    VectorDouble sills = {2. * sill, 0.5 * sill, 0.5 * sill, sill};
+    std::unique_ptr<Model> m2(Model::createFromParam(ECov::MATERN, 1., 1., nu, ranges, sills, angles));
+    PrecisionOpMulti pm(m2.get(), meshes);
+    PrecisionOpMultiMatrix pmm(m2.get(), meshes);
+    if (pm.getSize() != 2 * n || pmm.getSize() != 2 * n || pmm.getQ() == nullptr) throw std::runtime_error("two-variable PrecisionOpMulti(Matrix) could not be built");
+    Mat Qm = denseOf(pmm.getQ());
+    put(M, "OpEqualsMatrix.MultiMatrix", maxabs(Mat(matrixOfOp(pm, 2 * n) - Qm)), maxabs(Qm), "two variables: multi-matrix");
+    put(M, "OpEqualsMatrix.MultiMatrix", maxabs(Mat(matrixOfOp(pmm, 2 * n) - Qm)), maxabs(Qm), "two variables: matrix-apply");
+    put(M, "Symmetric.Q", maxabs(Mat(Qm - Qm.transpose())), maxabs(Qm), "two variables: Q");
+    putv(M, "PositiveDefinite.Quadratic", lambdaMin(Qm) / maxabs(Qm), "two variables: smallest eigenvalue (dense)");
+  });
   // ------------------------------------------------------------------ symmetric positive definite
   measure(M, "Symmetric.Q", [&]() { put(M, "Symmetric.Q", maxabs(Mat(Qd - Qd.transpose())), maxabs(Qd), "Q"); });
   measure(M, "Symmetric.Op", [&]() {
